@@ -250,31 +250,80 @@ def mutates_target(s):
     out = set()
     for t in s.targets:
         if isinstance(t, ast.Subscript) and isinstance(t.value, ast.Attribute) and isinstance(t.value.value, ast.Name):
-            out.add(t.value.value.id)
+            out.add(t.value.value.id)           # X.attr[k] = ..
+        if isinstance(t, ast.Attribute) and isinstance(t.value, ast.Name):
+            out.add(t.value.id)                 # X.attr = ..
     return out
 
 
+def _value_into(fn, node, env, what, store):
+    """a label value computed by `node` (a primitive that may raise, or a pure expression) -> text that ends in
+    store(<its Gallina text>)"""
+    r = prim(fn, node, env)
+    if r is not None:
+        g, t, _ = r
+        if t != LVAL:
+            _bad("a value of type %r is stored into %s" % (t, what), node)
+        v = fn.fresh("value")
+        return "%s <~ lift %s ;;\n%s" % (v, g, store(v))
+    g, t = pygal_m.pure(fn, node, env)
+    if t != LVAL:
+        _bad("a value of type %r is stored into %s" % (t, what), node)
+    return store(g)
+
+
+def dict_comp(fn, s, x, env, cont):
+    """X.labels = {k: v for a, b in <items> if t ...}: a new dict, filled in iteration order (key, then value, then the
+    store - later equal keys overwrite); X.labels is the OLD dict while the comprehension runs"""
+    c = s.value
+    if len(c.generators) != 1 or c.generators[0].is_async:
+        _bad("dict comprehension with several / async generators", s)
+    gen = c.generators[0]
+    tg = gen.target
+    if not (isinstance(tg, ast.Tuple) and len(tg.elts) == 2 and all(isinstance(e, ast.Name) for e in tg.elts)
+            and tg.elts[0].id != tg.elts[1].id):
+        _bad("target of the comprehension is not a pair of names", s)
+    lg, lt = pygal_m.pure(fn, gen.iter, env)
+    if lt.kind != "list" or lt.arg.kind != "pair":
+        _bad("comprehension over %r" % lt, s)
+    names = [e.id for e in tg.elts]
+    if any(n in env for n in names):
+        _bad("a comprehension variable shadows a local", s)
+    vs = [fn.fresh(n) for n in names]
+    acc = fn.fresh("acc")
+    benv = pygal_m.rebind(pygal_m.rebind(env, names[0], vs[0], lt.arg.fst), names[1], vs[1], lt.arg.snd)
+
+    def store(e):
+        k, tk = pygal_m.pure(fn, c.key, e)
+        if tk != KEY:
+            _bad("comprehension key of type %r" % tk, s)
+        return _value_into(fn, c.value, e, "the new dict", lambda g: "next (dict_setitem %s %s %s)" % (acc, k, g))
+    if gen.ifs:
+        cond = gen.ifs[0] if len(gen.ifs) == 1 else ast.BoolOp(op=ast.And(), values=list(gen.ifs))
+        body = pygal_m.test(fn, cond, benv, store, lambda e: "next %s" % acc)
+    else:
+        body = store(benv)
+    new, nx = fn.fresh("labels"), fn.fresh(x)
+    return "%s <~ for_ %s (fun '(%s, %s) %s =>\n%s)\n[] ;;\nlet %s := (tmsg_set_labels %s %s) in\n%s" % (
+        new, lg, vs[0], vs[1], acc, pygal_m.paren(body), nx, env[x][0], new, cont(pygal_m.rebind(env, x, nx, TMSG)))
+
+
 def stmt_m(fn, s, env, cont):
-    """X.labels[k] = <parse_label(..) | X.labels[k'] | pure label value>   (X the message): X is re-bound to its new content"""
+    """X.labels[k] = <parse_label(..) | X.labels[k'] | pure label value>   (X the message): X is re-bound to its new content
+    X.labels = {k: v for a, b in ... if ...}                                  see dict_comp"""
+    if isinstance(s, ast.Assign) and len(s.targets) == 1 and isinstance(s.targets[0], ast.Attribute) \
+            and isinstance(s.targets[0].value, ast.Name) and s.targets[0].attr == "labels" \
+            and env.get(s.targets[0].value.id, (None, None))[1] == TMSG and isinstance(s.value, ast.DictComp):
+        return dict_comp(fn, s, s.targets[0].value.id, env, cont)
     if not (isinstance(s, ast.Assign) and len(s.targets) == 1 and isinstance(s.targets[0], ast.Subscript)):
         return None
     it = _labels_item(fn, s.targets[0], env)
     if it is None:
         _bad("assignment to %s" % ast.unparse(s.targets[0])[:40], s)
     x, gx, k = it
-    r = prim(fn, s.value, env)
     nx = fn.fresh(x)
-    if r is not None:
-        g, t, _ = r
-        if t != LVAL:
-            _bad("a value of type %r is stored into labels" % t, s)
-        v = fn.fresh("value")
-        return "%s <~ lift %s ;;\nlet %s := (tmsg_setitem_labels %s %s %s) in\n%s" % (
-            v, g, nx, gx, k, v, cont(pygal_m.rebind(env, x, nx, TMSG)))
-    g, t = pygal_m.pure(fn, s.value, env)
-    if t != LVAL:
-        _bad("a value of type %r is stored into labels" % t, s)
-    return "let %s := (tmsg_setitem_labels %s %s %s) in\n%s" % (nx, gx, k, g, cont(pygal_m.rebind(env, x, nx, TMSG)))
+    return _value_into(fn, s.value, env, "labels", lambda g: "let %s := (tmsg_setitem_labels %s %s %s) in\n%s" % (
+        nx, gx, k, g, cont(pygal_m.rebind(env, x, nx, TMSG))))
 
 
 EXT = Ext(
